@@ -192,7 +192,16 @@ func (rc *RealCase) Dump(sub string) []string {
 		switch {
 		case fi.Mode()&fs.ModeSymlink != 0:
 			t, _ := os.Readlink(p)
-			out = append(out, rel, "link", "511", itoa(uid), itoa(gid), "-", rc.stripTmp(t))
+			// absolute targets are shown relative to the dumped view (what its PrefixFS reports)
+			switch {
+			case t == root:
+				t = "/"
+			case strings.HasPrefix(t, root+"/"):
+				t = strings.TrimPrefix(t, root)
+			default:
+				t = rc.stripTmp(t)
+			}
+			out = append(out, rel, "link", "511", itoa(uid), itoa(gid), "-", t)
 		case fi.IsDir():
 			out = append(out, rel, "dir", fmt.Sprint(unixMode(fi.Mode())), itoa(uid), itoa(gid), rc.timeStr(fi.ModTime()), "")
 		default:
